@@ -226,9 +226,24 @@ func c18Harvest(r *core.Run, idx int, rng *rand.Rand) {
 	mustRegister(e.W, d, "a")
 	id := "id" + legalXMLString(rng, 6)
 	var call *env.Call
-	kind := idx % 8
+	kind := idx % 9
 	wantRelay, checkRelay := "", false
 	switch kind {
+	case 8: // an attribute query during which a storage call fails with an error whose text is unusual (multi-byte, format
+		// verbs, markup and control characters): whatever is answered as XML is one well-formed document
+		u := randUser(rng, fmt.Sprintf("U_MK%dx", idx), false)
+		e.W.AddUser(u)
+		q := conformantQuery(rng, d, u.Username)
+		q.ID = id
+		op := []string{"GetEntityByID", "SetUserinfoWithLoginName", "GetResponseSigningKey"}[rng.Intn(3)]
+		fk := errTextKinds[rng.Intn(len(errTextKinds))]
+		e.W.Plan = func(tag, o string, occ int) string {
+			if o == op {
+				return fk
+			}
+			return ""
+		}
+		call = e.Do(env.Req{Method: "POST", Path: env.PathAttr, Body: q.XML(rng), CT: "text/xml"})
 	case 7: // the audience cannot be resolved at the callback: whatever is answered, it is ONE message
 		sc := randScenario(rng, fmt.Sprintf("MK%dx", idx), false)
 		sc.Host = ""
@@ -303,7 +318,7 @@ func c18Harvest(r *core.Run, idx int, rng *rand.Rand) {
 		q.Attrs = nil
 		call = e.Do(env.Req{Method: "POST", Path: env.PathAttr, Body: q.XML(rng), CT: "text/xml"})
 	}
-	class := []string{"sso_error", "logout", "attribute_query", "callback_unknown_id", "callback_signing_failure", "callback_key_fault", "callback_relay_state", "callback_entity_lookup_fault"}[kind]
+	class := []string{"sso_error", "logout", "attribute_query", "callback_unknown_id", "callback_signing_failure", "callback_key_fault", "callback_relay_state", "callback_entity_lookup_fault", "attribute_query_storage_fault_with_unusual_text"}[kind]
 	r.Eval(class + core.Hex(id))
 	viol := func(clause, reason string) {
 		r.Violate(core.Violation{Clause: clause, Class: class, Reason: reason, Workload: wl, Index: idx, Case: map[string]any{"id": id}, Observed: call.Describe()})
@@ -345,6 +360,19 @@ func c18Harvest(r *core.Run, idx int, rng *rand.Rand) {
 		return
 	}
 	if call.D.XML == nil {
+		// no SAML message was recognised; a body that is announced as XML still has to be a well-formed document
+		if ct := call.Rec.HeaderAtSend.Get("Content-Type"); strings.Contains(strings.ToLower(ct), "xml") && len(bytes.TrimSpace(call.D.Body)) > 0 {
+			ok, perr, _, oerr := verify.PyWF(call.D.Body, true)
+			if oerr != nil {
+				r.Inconclusive("python oracle unavailable: " + oerr.Error())
+				return
+			}
+			r.Count("harvested_xml_bodies_that_are_no_saml_message", 1)
+			if !ok {
+				viol("not_wellformed", "the reply is sent as "+ct+" and is no well-formed document; expat: "+perr)
+			}
+			return
+		}
 		r.Count("harvest_no_message", 1)
 		return
 	}
